@@ -1143,6 +1143,52 @@ func scenarioSnapshotWithoutWitness(r *vh.Rand) (string, []string) {
 	return g.c.Header(), g.ops
 }
 
+// scenario 20: five voters; the leader's Replicate to replica 3 is still in the send queue
+// when a new leader (elected by 2, 4, 5) overwrites the old leader's uncommitted tail; the
+// queued message then reaches 3, which has not heard of the new term.
+func scenarioQueuedReplicateAndTruncation(r *vh.Rand) (string, []string) {
+	g := newScenarioGen(r, 5, uint64(6+r.Intn(3)), false, false)
+	if !g.elect(1, nil) {
+		return g.c.Header(), g.ops
+	}
+	// the leader does not apply what follows: the committed entry stays in its in-memory log
+	// below the tail that will be replaced
+	g.propose(1)
+	g.settleHold(nil, map[uint64]bool{1: true})
+	g.do(fmt.Sprintf("U 1 1 %d", g.c.Nodes[1].Applied))
+	g.settleHold(nil, map[uint64]bool{1: true})
+	for i := 0; i < 4+r.Intn(2); i++ {
+		g.propose(1)
+	}
+	held := func(m pb.Message) bool { return m.From == 1 && m.To == 3 && m.Type == pb.Replicate }
+	g.dropPool(func(m pb.Message) bool { return !held(m) })
+	t0 := g.term(1)
+	g.tickUntil(2, func() bool { return g.role(2) == 1 && g.term(2) == t0+1 }, 80)
+	side := only(2, 4, 5)
+	g.settle(func(m pb.Message) bool { return side(m) && !held(m) })
+	if g.Stopped || g.role(2) != 3 {
+		return g.c.Header(), g.ops
+	}
+	// the new leader's first Replicate to the old one is lost; it appends more entries, and the
+	// heartbeat round makes it send them all at once: the old leader's tail is replaced
+	g.dropPool(func(m pb.Message) bool { return !held(m) && (m.To == 1 || m.From == 1) })
+	for i := 0; i < 1+r.Intn(2); i++ { // fewer entries than the tail they replace
+		g.propose(2)
+		g.dropPool(func(m pb.Message) bool { return !held(m) && (m.To == 1 || m.From == 1) })
+		g.settle(func(m pb.Message) bool { return !held(m) && side(m) })
+	}
+	for i := 0; i < 3 && !g.Stopped; i++ {
+		g.do("T 2")
+		g.update(2)
+		g.settle(func(m pb.Message) bool { return !held(m) && (side(m) || only(1, 2)(m)) })
+	}
+	g.update(1)
+	// now the queued message arrives
+	g.settle(held)
+	g.settle(nil)
+	return g.c.Header(), g.ops
+}
+
 var scenarios = []func(r *vh.Rand) (string, []string){
 	scenarioTransferWithUnappliedChange,
 	scenarioVoteRace, scenarioTransferRemove, scenarioDeposedLeaderRead, scenarioDelayedConfirmation,
@@ -1151,4 +1197,5 @@ var scenarios = []func(r *vh.Rand) (string, []string){
 	scenarioNewMemberMostUpToDate, scenarioCandidateGetsSnapshot, scenarioSnapshotReportedButLost,
 	scenarioUnappliedChangesAndTimeout, scenarioRestartedLeaderPendingChange, scenarioStaleHigherTermReplica,
 	scenarioOnlyFullMemberRead, scenarioMatchingSnapshotBehindLog, scenarioSnapshotWithoutWitness,
+	scenarioQueuedReplicateAndTruncation,
 }
